@@ -144,6 +144,13 @@ func c07Oracle(r *SeqRun) []Viol {
 func c07Seq(tier string) []SeqJob {
 	var out []SeqJob
 	mk := func(name string, keys []int, ttls []int64, depth int, secs float64) {
+		hash := ""
+		if keys[0] < 0 {
+			// negative marker: keys with NON-ZERO conflict hashes (custom KeyToHash), as string /
+			// []byte keys have: lookups then take the conflict-checking path
+			hash = "collide"
+			keys = keys[1:]
+		}
 		var alpha []Op
 		for _, k := range keys {
 			alpha = append(alpha, Op{K: "get", Key: k}, Op{K: "set", Key: k, Cost: 1})
@@ -152,16 +159,18 @@ func c07Seq(tier string) []SeqJob {
 			}
 			alpha = append(alpha, Op{K: "getttl", Key: k}, Op{K: "del", Key: k})
 		}
-		alpha = append(alpha, Op{K: "iter"}, Op{K: "advance", N: 1000}, Op{K: "advance", N: 5000}, Op{K: "sweep"})
-		spec := &SeqSpec{Cfg: Cfg{NumCounters: 16, MaxCost: 4, BufferItems: 2, SetBuf: 2, TTLTick: 2, BucketSecs: 1}, MaxDepth: depth,
+		alpha = append(alpha, Op{K: "iter"}, Op{K: "advance", N: 1000}, Op{K: "advance", N: 5000}, Op{K: "sweep"}, Op{K: "advance", N: 400})
+		spec := &SeqSpec{Cfg: Cfg{NumCounters: 16, MaxCost: 4, BufferItems: 2, SetBuf: 2, TTLTick: 2, BucketSecs: 1, KeyHash: hash}, MaxDepth: depth,
 			Alphabet: func(r *SeqRun) []Op { return alpha }, Oracle: c07Oracle}
 		out = append(out, SeqJob{Name: name, Spec: spec, Seconds: secs})
 	}
 	if tier == "quick" {
-		mk("seq/1key/ttl{-1,1,3,7}s/depth6", []int{1}, []int64{-1000, 1000, 3000, 7000}, 6, 40)
+		mk("seq/1key/ttl{-1,1,1.5,3,7}s/depth6", []int{1}, []int64{-1000, 1000, 1500, 3000, 7000}, 6, 40)
 		mk("seq/2keys/ttl{1,3}s/depth5", []int{1, 257}, []int64{1000, 3000}, 5, 40)
+		mk("seq/nonzero-conflict/1key/ttl{1,1.5}s/depth6", []int{-1, 3}, []int64{1000, 1500}, 6, 40)
 	} else {
-		mk("seq/1key/ttl{-1,1,3,7}s/depth8", []int{1}, []int64{-1000, 1000, 3000, 7000}, 8, 560)
+		mk("seq/1key/ttl{-1,1,1.5,3,7}s/depth8", []int{1}, []int64{-1000, 1000, 1500, 3000, 7000}, 8, 560)
+		mk("seq/nonzero-conflict/2keys/ttl{1,1.5,3}s/depth7", []int{-1, 1, 3}, []int64{1000, 1500, 3000}, 7, 560)
 		mk("seq/2keys/ttl{-1,1,3,7}s/depth6", []int{1, 257}, []int64{-1000, 1000, 3000, 7000}, 6, 560)
 		mk("seq/2keys/ttl{1,3}s/depth7", []int{1, 257}, []int64{1000, 3000}, 7, 560)
 	}
